@@ -90,7 +90,8 @@ def slice_array(arr: List[int], start: Optional[int], stop: Optional[int], step:
     post: _
     """
     sel = SliceSelector(env=ENV, token=TOK, start=start, stop=stop, step=step)
-    sel.slice = PySlice(start, stop, step)  # stub for the C slice object (see vlib/stubs.py)
+    real = sel.slice  # what the constructor stored; the stub only replaces the C object's indices() arithmetic
+    sel.slice = PySlice(real.start, real.stop, real.step)
     p = JSONPath(env=ENV, selectors=[sel])
     doc = Arr(arr)
     ms = list(p.finditer(doc))
